@@ -235,6 +235,9 @@ def run(chk):
         # the steps that belong to this property's operations
         from .chains import run_chains
         run_chains(chk, 60, cfg="PipelineGen_l6.cfg", only_prop="C08")
+    # the pure helper functions behind this property (spec/Helpers.tla)
+    from .helpers import run_helpers
+    run_helpers(chk, ('low', 'split'))
     return chk.finish(
         rule="(a) order_substitutions on every index map of 4 (thorough: 5) "
              "same-space indices into a pool with extra names (chains, cycles, "
